@@ -4,7 +4,7 @@ from checks import arrays
 from checks.c04 import consts
 
 BASE = ["ctor_default", "ctor_ext", "ctor_iota", "ctor_copy", "assign_copy", "write", "destroy", "assign_il", "ctor_move"]
-PAIRS = ["ctor_iota", "reextent", "reextent_fill", "reshape", "clear", "assign_empty"]
+PAIRS = ["ctor_iota", "reextent", "reextent_fill", "reextent_move", "reshape", "clear", "assign_empty"]
 
 
 def run(tier):
